@@ -11,7 +11,6 @@ import (
 	"encoding/binary"
 	"encoding/hex"
 	"fmt"
-	"math/big"
 	"sync"
 	"testing"
 
@@ -37,7 +36,7 @@ func TestMain(m *testing.M) {
 			"colliding (domain, payload type, payload) triples constructed for six weaker-than-specified pre-image encodings, foreign key and foreign domain pairings. "+
 			"Oracle: round trips; independent peer ID definition; metamorphic acceptance rule (accepted => decoded (signer key, payload type, payload) and the requested "+
 			"domain are exactly a sealed tuple; for peerstores additionally record.PeerID == ID of the signing key). "+
-			"One evaluation = one receiver decision on one candidate input. NON-TRIVIAL = the candidate is mutated / foreign / colliding / mismatched (not the plain round trip). "+
+			"One evaluation = one candidate input judged by every applicable receiver (ConsumeTypedEnvelope with a record of the requested domain, ConsumeEnvelope, typed PeerRecord / ReservationVoucher receivers, both address books). NON-TRIVIAL = the candidate is mutated / foreign / colliding / mismatched (not the plain round trip). "+
 			"DISTINCT = distinct (candidate bytes, requested domain, receiver) resp. distinct (key, message, mutation) scenario.",
 		"standard hardness assumptions: nobody signs for a pool key without the harness (a candidate accepted with a sealed tuple's exact content is legitimate)",
 		"signature malleability that leaves content, signer and domain unchanged is not a violation (statement is about content, domain and signer)",
@@ -527,7 +526,3 @@ func matchSealed(set []*sealed, env *record.Envelope, domain string) (*sealed, s
 	}
 	return nil, b.String()
 }
-
-func b64(b []byte) string { return base64.StdEncoding.EncodeToString(b) }
-
-func bigFromBytes(b []byte) *big.Int { return new(big.Int).SetBytes(b) }
